@@ -229,6 +229,14 @@ def step' (s : CState) (line : String) : CState × String :=
       let r := if flav == "b" && sa != sb then false else a == b
       (s, if r then "ok True" else "ok False")
     | _, _ => (s, "bad-op")
+  | ["eqrows", flav, _level, sa, sb, va, vb, ma, mb] =>
+    -- the same with masks ("-" = no mask): `__eq__` of the columns compares data and masks (`MCol.eq`)
+    let decM (m : String) : Option (List Nat) := if m == "-" then none else some (m.toList.map (fun c => c.toNat - 48))
+    match decList va, decList vb with
+    | some a, some b =>
+      let r := if flav == "b" && sa != sb then false else MCol.eq ⟨a, decM ma⟩ ⟨b, decM mb⟩
+      (s, if r then "ok True" else "ok False")
+    | _, _ => (s, "bad-op")
   | ["lazyget", t, b, c] =>
     let c? : Option (Option Str) := if c == "~" then some none else (decStr c).map some
     match decStr t, decStr b, c? with
